@@ -13,8 +13,8 @@ LEVEL = "model_checking"
 RULE = (
     "every history of length <=4 (quick) / <=5 (thorough) over 7 operations {protect(P1,SID1), protect(P2,SID1), protect(P1,SID2), unprotect(latest output), protect in public-key mode via the "
     "reference DC with a DH root key, same with ECDH_P256, same with a DH root key whose private key length (509 bits) is not a multiple of 8, the application reseeding the interpreter-wide `random` module to a constant, protect naming a root key whose seed keys come from the DC and are then cached}; all tuples of 2..3 such protects IN FLIGHT CONCURRENTLY (async, one shared cache, replies released FIFO/LIFO) (repeating an operation = identical arguments) x cache {shared along the history, fresh per call} x {sync, async} x clock {fixed, advancing one L2 "
-    "interval per call}; each history is run under a logging entropy source that never repeats a block (os.urandom and AESGCM.generate_key seams) and again under the real sources. From every emitted blob "
-    "the GCM nonce, key_info (nonce / ephemeral public key), the CEK (unwrapped with the reference KEK) and the ciphertext are extracted. Oracle: within a history all CEKs, all GCM nonces and all key_infos "
+    "interval per call}; each history is run under a logging entropy source that never repeats a block (os.urandom and AESGCM.generate_key seams) and again under the real sources "
+    "(and a third time, for 8 long histories, under a source whose blocks are pairwise distinct but agree under Adler-32, CRC-32, octet multiset, shared prefixes / suffixes; no draw of a protect call may be shorter than 96 bits). From every emitted blob the GCM nonce, key_info (nonce / ephemeral public key), the CEK (unwrapped with the reference KEK) and the ciphertext are extracted. Oracle: within a history all CEKs, all GCM nonces and all key_infos "
     "are pairwise distinct, equal plaintexts give different ciphertexts, GCM nonce is 12 bytes and the key-id nonce 32. Threads: two OS threads calling the sync protect API at once on one shared cache under a controlled scheduler (baton; scheduling point = every source line of dpapi_ng): every schedule with <=1 preemption (thorough: <=2 at function-entry granularity), same oracle. state = history prefix / schedule; transition = one API call / one scheduling point. Non-trivial = histories with >= 2 protects."
 )
 ASSUME = ["distinctness is demanded, not equality with a logged draw, so an implementation using another OS entropy interface is judged on real randomness (false alarm needs a 96-bit collision)"]
